@@ -473,6 +473,11 @@ impl Path {
 
 #[cfg(loom_verif)]
 impl Path {
+    /// `(exploring, skipping)`
+    pub(crate) fn verif_flags(&self) -> (bool, bool) {
+        (self.exploring, self.skipping)
+    }
+
     /// Copy the decision path out for the verification observer.
     pub(crate) fn verif_snapshot(&self) -> (Vec<crate::rt::verif::Branch>, usize) {
         use crate::rt::verif::{Branch, BranchKind};
